@@ -8,7 +8,7 @@ use crate::rng::Rng;
 use serde_json::{json, Value};
 
 fn knobs(rng: &mut Rng) -> Knobs {
-    Knobs { n_funcs: 2 + rng.below(5) as usize, max_blocks: 6 + rng.below(8) as usize, must_call: c21::TRIGGERS.to_vec(), lkm: false }
+    Knobs { n_funcs: 2 + rng.below(5) as usize, max_blocks: 6 + rng.below(8) as usize, must_call: c21::TRIGGERS.to_vec(), lkm: false, lost_roots: rng.chance(1, 2) }
 }
 
 pub fn exec_case(reset: &Value) -> Vec<Value> {
